@@ -14,7 +14,8 @@ RULE = ("Histories as in C22; every generated single transaction (27 kinds: vali
         "all inputs under the consensus flags of block tip+1 computed here. evaluations = test/submit pairs.")
 ASSUMPTIONS = ["the rolling minimum fee state and GetTransactionsUpdated are not part of the compared content (the statement is about mempool contents)", "consensus script flags for regtest are recomputed from the deployment heights"]
 REQUIRED = ["testaccept_pairs", "testaccept_valid", "testaccept_invalid", "policy_consensus_checks", "res:mempool-script-verify-flag-failed",
-            "res:min relay fee not met", "res:insufficient fee", "res:bad-txns-inputs-missingorspent", "res:non-final", "res:TRUC-violation", "rbf_accepted"]
+            "res:min relay fee not met", "res:insufficient fee", "res:bad-txns-inputs-missingorspent", "res:non-final", "res:TRUC-violation", "rbf_accepted",
+            "testaccept_conflict_pairs", "testaccept_conflict_pairs_spends", "res:bad-txns-spends-conflicting-tx"]
 TECHNIQUE = "metamorphic twin-run (test-accept vs submit) with state hashing + direct VerifyScript re-verification under ASan+UBSan"
 LEVEL_TEXT = "held on every generated transaction at the point of its history where it was tried"
 LEVEL_NOTE = "trusted: generator, VerifyScript"
@@ -22,9 +23,20 @@ LEVEL_NOTE = "trusted: generator, VerifyScript"
 
 def runs(tier, seed):
     n = 30 if tier == "quick" else 320
-    return [Run("mempoolsim", cases=n, params={"class": "testaccept", "mon": "testaccept"}, timeout=3000 if tier == "quick" else 14000)]
+    # second run: the RBF candidate generator of C26 (conflicting candidates at/around the fee threshold, candidates spending an output of a
+    # transaction they conflict with, prioritised victims, TRUC sibling eviction, >100 clusters) with every conflicting candidate test-accepted
+    # and then submitted; only the test-accept/submit comparison is judged in this mode (`mon=testaccept`), the RBF rules belong to C26
+    return [Run("mempoolsim", cases=n, params={"class": "testaccept", "mon": "testaccept"}, timeout=3000 if tier == "quick" else 14000),
+            Run("rbf", cases=8 if tier == "quick" else 120, params={"mon": "testaccept"}, timeout=3000 if tier == "quick" else 14000)]
 
 
 def check(rec, st):
+    if rec.get("t") == "hist" and "candidates" in rec and "st" not in rec:
+        # history record of the `rbf` run (mon=testaccept): every conflicting candidate is one test/submit pair
+        st.evaluations += int(rec["candidates"])
+        st.seen("rbf_histories_seen")
+        if rec["candidates"] >= 20:
+            st.nontrivial("rbfhist", rec.get("case"), rec["candidates"], rec.get("tip_height"))
+        return
     if rec.get("t") == "hist":
         e2check.hist_common(rec, st, "testaccept_pairs")
